@@ -1,11 +1,32 @@
 """C09 — malformed input gives an error Status, never undefined behaviour."""
 
-# Labels (site heads, the part before '/') whose mutants are known to crash the
-# pinned tree (see known_findings.d/C09.json). They are still generated, but
-# deferred to the end of their case and executed in only a fraction of cases so
-# that the driver's per-worker crash cap is not reached. Empty it when /repo
-# has the fixes.
-HOT = []
+# Labels whose mutants are known to break the pinned tree (see
+# known_findings.d/C09.json: R1..R22). They are still generated, but never
+# stacked with a second mutation, deferred to the end of their case and executed
+# in only a fraction of the cases (param hotPerCase), so that the driver's
+# per-worker crash cap is not reached and a known crash costs no other mutant.
+# Forms: "<family>:<head>" or "<family>:<head>/<kind>" (prefix of the site label
+# at a '/'), "*/<variant>" (suffix). Set C09_HOT= (empty) or delete entries once
+# /repo has the fixes: nothing else needs to change.
+import os as _os
+_HOT_DEFAULT = [
+    # mesh stage
+    "*/merge32", "*/merge64", "mesh:numProp/numProp-0", "mesh:runIndex", "mesh:tangent-length", "mesh:triVerts-length",
+    "mesh:tolerance/tol-nan", "mesh:tolerance/tol-inf", "mesh:position/pos-huge", "mesh:merge/merge-rand-valid",
+    "mesh:merge/merge-all-to-one", "mesh:merge/merge-cycle",
+    # poly stage
+    "poly:empty-ring", "poly:all-rings-empty", "poly:ring-1pt", "poly:only-1pt", "poly:ring-2pt", "poly:only-2pt",
+    "poly:nan-pt", "poly:all-nan", "poly:inf-pt", "poly:huge", "poly:spike", "poly:dup-all", "poly:dup-consecutive",
+    "poly:on-axis", "poly:denormal", "obj:idx-overflow-int",
+    # args stage
+    "arg:SmoothByNormals.normalIdx", "arg:SmoothByNormals.all", "arg:RefineToLength.length", "arg:RefineToTolerance.tolerance",
+    "arg:SetProperties.numProp", "arg:SetProperties.out", "arg:LevelSet.edgeLength", "arg:LevelSet.min.x", "arg:LevelSet.max.x",
+    "arg:LevelSet.min.z", "arg:LevelSet.level", "arg:LevelSet.tolerance", "arg:CS.Warp.out", "arg:CS.Offset.delta",
+    "arg:Extrude.twist", "arg:Extrude.height", "arg:Extrude.nDivisions", "arg:Extrude.scaleTopX", "arg:Extrude.scaleTopY",
+    "arg:Cylinder.radiusHigh", "arg:Cylinder.radiusLow", "arg:Cylinder.height", "arg:CS.Square.x", "arg:CS.Square.y",
+    "arg:SmoothOut.minSmoothness", "arg:SmoothOut.minSharpAngle", "arg:SetTolerance.tolerance", "arg:Simplify.tolerance",
+]
+HOT = [h for h in _os.environ.get("C09_HOT", ",".join(_HOT_DEFAULT)).split(",") if h]
 
 CHECK = {
     "id": "C09",
@@ -20,15 +41,15 @@ CHECK = {
     "stages": [
         {"name": "mesh", "variant": "asan", "harness": "c09_malformed.cpp",
          "cases": {"quick": 400, "thorough": 14000},
-         "params": {"mode": "mesh", "mutants": 40, "hot": ",".join(HOT), "hotPerCase": {"quick": 0.3, "thorough": 0.02}},
+         "params": {"mode": "mesh", "mutants": 40, "hot": ",".join(HOT), "hotPerCase": {"quick": 0.12, "thorough": 0.01}},
          "case_timeout": 60},
         {"name": "poly", "variant": "asan", "harness": "c09_malformed.cpp",
          "cases": {"quick": 160, "thorough": 5000},
-         "params": {"mode": "poly", "mutants": 40, "hot": ",".join(HOT), "hotPerCase": {"quick": 0.3, "thorough": 0.02}},
+         "params": {"mode": "poly", "mutants": 40, "hot": ",".join(HOT), "hotPerCase": {"quick": 0.12, "thorough": 0.01}},
          "case_timeout": 60},
         {"name": "args", "variant": "asan", "harness": "c09_malformed.cpp",
          "cases": {"quick": 200, "thorough": 6000},
-         "params": {"mode": "args", "mutants": 40, "hot": ",".join(HOT), "hotPerCase": {"quick": 0.3, "thorough": 0.02}},
+         "params": {"mode": "args", "mutants": 40, "hot": ",".join(HOT), "hotPerCase": {"quick": 0.12, "thorough": 0.01}},
          "case_timeout": 60},
     ],
     "assumptions": [
@@ -39,8 +60,22 @@ CHECK = {
 }
 
 TEXT = {
-    "text": "placeholder",
-    "note": "placeholder",
+    "text": ("Held on the executions observed, EXCEPT for the open findings listed in known_findings.d/C09.json (R1..R22: the "
+             "pinned tree reads/writes out of bounds, divides by zero, overflows or throws on 20+ classes of malformed "
+             "input; every class has a standalone reproducer and a proposed validate-and-return-Error patch, and with "
+             "those patches applied 12 000 mutants ran clean). Monitors: ASan+UBSan, catch-all for escaping exceptions, "
+             "watchdog for non-termination; every rejected value (Status != NoError) is checked to be empty and is fed to "
+             "a random program over every Manifold-returning method, whose results must all keep a non-NoError Status "
+             "(stickiness); every accepted value is exported and must pass the independent closed-2-manifold/finite "
+             "check. Workload: structure-aware mutants of valid MeshGL64/MeshGL exports (lengths, indices, numProp, run "
+             "tables in every length combination, flags, tangents, merge vectors, non-finite/extreme values, bit flips) "
+             "through the constructors, ExecutionContext::FromMeshGL/Smooth, Manifold::Smooth and Merge(); polygon sets, "
+             "point sets and OBJ text; one or two special values (neg, 0, -0, denormal, NaN, +-Inf, DBL_MAX, INT_MIN/MAX) in "
+             "every numeric argument of 44 operations. Sampling, not proof."),
+    "note": ("Trusts g++'s sanitizers and the harness oracles. Uninitialised reads are only seen when they lead to a crash "
+             "(no MSan). Termination = 60 s watchdog. Valid-but-huge requests are counted as resource_bound and not run. "
+             "While the findings are open their mutation kinds are throttled (param hot) and witnessed as KNOWN-FINDING; "
+             "C bindings are C20's. No libFuzzer stage (would need driver support for a second main)."),
     "technique": "runtime monitoring: structure-aware mutation fuzzing under ASan+UBSan with status-stickiness and usable-result oracles",
     "design_ref": "DESIGN.md 4 C09",
 }
